@@ -12,7 +12,9 @@ CONTROLS = {
              ("Bind.names.cfg", {"AsShipped_D10": "TRUE"}, "ContractHolds")],
     "BoolOp": [("BoolOp.mc.cfg", {"Bug": '"no_loser_cancel"'}, "ContractHolds"),
                ("BoolOp.mc.cfg", {"Bug": '"or_last_only"'}, "ContractHolds"),
-               ("BoolOp.mc2.cfg", {"AsShipped_N1": "TRUE"}, "ContractHolds")],
+               ("BoolOp.mc2.cfg", {"AsShipped_N1": "TRUE"}, "ContractHolds"),
+               # (three inputs at micro-operation granularity: 2 minutes, thorough tier only)
+               ("BoolOp.mc6.cfg", {"Bug": '"pop_before_lock"'}, "ContractHolds", "thorough")],
     "CancelOnShutdown": [("CancelOnShutdown.mc.cfg", {"Bug": '"no_track"'}, "ContractHolds"),
                          ("CancelOnShutdown.mc.cfg", {"Bug": '"skip_one"'}, "ContractHolds"),
                          ("CancelOnShutdown.mc.cfg", {"AsShipped_D2": "TRUE"}, "NoABBA")],
@@ -60,10 +62,11 @@ CONTROLS = {
 }
 
 
-def run(modules, timeout=900):
+def run(modules, timeout=900, tier="thorough"):
     """-> list of {"module", "cfg", "override", "expected", "violated", "ok", "wall_s"}"""
     from . import tlc
-    jobs = [(m, c, o, exp) for m in modules for (c, o, exp) in CONTROLS.get(m, [])]
+    jobs = [(m, row[0], row[1], row[2]) for m in modules for row in CONTROLS.get(m, [])
+            if len(row) < 4 or row[3] == tier]
 
     def one(j):
         m, c, o, exp = j
